@@ -3359,6 +3359,12 @@ yin_parse_element_generic(struct lysp_yin_ctx *ctx, enum ly_stmt parent_stmt, st
         }
     } else {
         /* save element content */
+        if (ctx->xmlctx->value_len && (*element)->arg) {
+            /* the argument was given in an attribute already, it would be overwritten (and never released) */
+            LOGVAL_PARSER((struct lysp_ctx *)ctx, LYVE_SYNTAX_YIN, "Unexpected text content of the element \"%s\".", (*element)->stmt);
+            ret = LY_EVALID;
+            goto cleanup;
+        }
         if (ctx->xmlctx->value_len) {
             INSERT_STRING_RET(ctx->xmlctx->ctx, ctx->xmlctx->value, ctx->xmlctx->value_len, ctx->xmlctx->dynamic, (*element)->arg);
             LY_CHECK_ERR_GOTO(!(*element)->arg, ret = LY_EMEM, cleanup);
@@ -3377,6 +3383,12 @@ yin_parse_element_generic(struct lysp_yin_ctx *ctx, enum ly_stmt parent_stmt, st
             ret = LY_EVALID;
             goto cleanup;
         }
+    }
+
+    if (ctx->xmlctx->status != LYXML_ELEM_CLOSE) {
+        /* e.g. a child element inside the yin-element argument of a known statement */
+        LOGVAL_PARSER((struct lysp_ctx *)ctx, LYVE_SYNTAX_YIN, "Unexpected content of the element \"%s\".", (*element)->stmt);
+        ret = LY_EVALID;
     }
 
 cleanup:
